@@ -81,6 +81,11 @@ type task struct {
 	panicV  interface{}
 	panicS  string
 	prio    int // PCT
+
+	// channel rendezvous through the scheduler (chansim.go)
+	mail      interface{}
+	hasMail   bool
+	mailTaken bool
 }
 
 // Step is one scheduling decision: which task ran, from which yield site.
